@@ -152,14 +152,6 @@ def _run_record(p, script, res, crash, events):
     }
 
 
-def _no_second_run(r):
-    """A run that did not return and left a document of the right size and line count with wrong content under the final name
-    (what a failing external tool wrote, before the library fall-back truncates it - only a crash exactly there leaves it): the
-    retry accepts it also with a declared size.  Same root cause as known finding F10a (decompression writes the final name); the
-    second run is not executed for this leftover as long as that root cause is a known finding (VERIF_C14_FLIP_RETRY=1 executes it)."""
-    return r["end"] != "returned" and r["fs"]["doc"] == "flip" and not os.environ.get("VERIF_C14_FLIP_RETRY")
-
-
 def dry_chain(case, sandbox):
     """Chain A: run 1 to its end, then a second run. Returns (item, events of run 1, details)."""
     fx = fx_of(case)
@@ -168,9 +160,6 @@ def dry_chain(case, sandbox):
     cf.materialize(fx, d, init, p)
     r1 = cf.run_once(fx, d, p, script)
     rec1 = _run_record(p, script, r1, {"kind": "none", "seg": 0}, r1["events"])
-    if _no_second_run(r1):
-        item = {"id": case["id"] + "/A", "p": _p(p), "eol": p.get("eol", "lf"), "init": init, "runs": [rec1]}
-        return item, r1["events"], {"runs": [_detail(r1)]}
     cf.settle(d, 1)
     rest = script[r1["nreq"] :]
     r2 = cf.run_once(fx, d, p, rest)
@@ -232,9 +221,6 @@ def crashed_chain(case, ev, crash, sandbox):
     nreq1 = own[-1][1]
     rc["nreq"] = nreq1
     recc = _run_record(p, script, rc, {"kind": crash["kind"], "seg": _seg_of(own, len(own))}, own)
-    if _no_second_run(rc):
-        item = {"id": "%s/B-%s%d" % (case["id"], crash["kind"], k), "p": _p(p), "eol": p.get("eol", "lf"), "init": init, "runs": [recc]}
-        return item, {"runs": [_detail(rc)]}
     cf.settle(d, 1)
     rest = script[nreq1:]
     r2 = cf.run_once(fx, d, p, rest)
@@ -370,6 +356,10 @@ DIRECTED = [
     ("corrupt-payload-gz-library", "gz", "none", True, True, {"arch": "C", "off": "X"}, [], None, "crlf"),
     ("corrupt-payload-gz-downloaded-undeclared", "gz", "ok", False, False, {}, [{"k": "body", "c": "C", "hdr": True}], None),
     ("corrupt-payload-gz-bundled", "gz", "ok", True, False, {"arch": "C"}, [], None, "lf", {"entry": "bundled"}),
+    # ... and the process dies after the failing tool wrote everything, before the library fall-back truncates it: the retry
+    # finds a document of the declared size (known finding F10d)
+    ("corrupt-payload-gz-killed-after-tool", "gz", "ok", True, True, {"arch": "C"}, [], {"kind": "kill", "match": {"doc": "flip"}}),
+    ("corrupt-payload-gz-interrupted-after-tool", "gz", "ok", False, False, {"arch": "C", "off": "X"}, [], {"kind": "intr", "match": {"doc": "flip"}}, "crlf"),
     # the published archive expands to MORE / to LESS than the declared uncompressed size: explicit error, no endless loop
     ("expands-to-more-than-declared-zip", "zip", "none", True, True, {"arch": "G"}, [], None, "lf", {"cons": False, "bigger": True}),
     ("expands-to-more-than-declared-gz-download", "gz", "ok", True, True, {}, ["G"], None, "crlf", {"cons": False, "bigger": True}),
@@ -562,7 +552,6 @@ def run(ctx, out):
     out.assumptions = [
         "documents are ndjson with \\n or \\r\\n line ends (both fixtures contain multi-byte characters; a bare \\r is excluded: the text-mode table builder counts it as a line end, the mmap reader does not); S3/GCS transports are not exercised (HTTP(S) only, scripted below net._request at the urllib3 pool manager; urllib3's own HTTPResponse streaming and Content-Length enforcement are real)",
         "no checksums exist in the track format: a complete local file is taken to be the published one unless its size contradicts a DECLARED size; initial document files of undeclared size are missing or genuine (partial ones of undeclared size are reached through crashed or failed runs); an archive of the published size is the published archive, except class C for gzip (one payload byte differs, the stream stays well-formed, only the CRC in the trailer gives it away): it must end in an explicit error",
-        "a run that ends without returning and leaves a right-sized wrong-content document (only a crash between the end of a failing external tool and the library fall-back does) is not followed by a second run: the retry would accept it - same root cause as known finding F10a (VERIF_C14_FLIP_RETRY=1 executes it)",
         "an inconsistent declaration (cons = FALSE) is realised in both directions: the archive expands to 7 bytes less or 7 bytes more than the declared uncompressed size",
         "for an uncompressed corpus of undeclared size a complete HTTP exchange whose body is cut inside the last line is indistinguishable from the published file and excluded",
         "torn / unparsable offset tables (cut inside an entry) are INITIAL states only (what a power loss, a full disk or an interrupted copy of the data directory leaves): a killed process cannot produce them, CPython's text layer hands complete print() pieces to the OS, so a killed build leaves a correct prefix of the table (observed: the empty table)",
